@@ -284,7 +284,8 @@ theorem parse_wrapFrom_default (adm : Bool) (ws : List W) : ∀ (s : WS) (n : Na
 
 /-- **Default set, nil input, any wrapper chain**: the result is exactly what the base schema
     returned (the default value; or the base's error), *no transform function is called* however
-    many are chained, and the only callbacks are the pipe targets, each given that same value. -/
+    many are chained, and the only callbacks are the pipe targets (second schemas: they receive what
+    their source stage returned), each given that same value. -/
 theorem c03_wrapped_default (adm : Bool) (i : I) (ws : List W) (h : hasDefault i = true) :
     (wrap i ws).parse adm .nil =
       match baseNil adm i with
@@ -348,20 +349,28 @@ theorem specNilW_of (adm : Bool) (h : List Op) (ws : List W) (o : Outcome) (obs 
   rw [List.any_eq_true]
   exact ⟨o, mem_allOutcomes o, by simp [h1, h2]⟩
 
-/-- The full statement for wrapped schemas: after every history and under every chain of
-    `Transform` / `Pipe` wrappers a nil input yields the documented observation — result **and**
-    callback log. (False today: `c03_witness_default_piped` and the bare-schema witnesses.) -/
+theorem pipeCalls_eq_spec (v : V) (ws : List W) : ∀ n, pipeCalls v n ws = runPipesOnly v n ws := by
+  induction ws with
+  | nil => intro n; rfl
+  | cons w ws ih => intro n; cases w <;> simp [pipeCalls, runPipesOnly, ih]
+
+/-- The full statement for wrapped schemas: after every history (check-attaching calls included) and
+    under every chain of `Transform` / `Pipe` wrappers a nil input yields the documented observation —
+    result **and** callback log. (False today only because of the bare schema's deviations:
+    `c03_wrapped_witness_default_checked`; the wrappers themselves never deviate, see
+    `c03_wrapped_partial`, whose only hypothesis is the one of `c03_history_partial`.) -/
 def c03_wrapped_full (rule : RefineRule) (admitsNil : Bool) : Prop :=
   ∀ (h : List Op) (ws : List W),
     specNilW admitsNil h ws ((wrap (applyAll rule {} h) ws).parse admitsNil .nil) = true
 
-/-- **C03 under wrappers.** For every history of the eight modifiers (any length, any order) and
-    every chain of `Transform(fᵢ)` wrappers — and chains with `Pipe` when no default is set — a nil
-    input yields: the default value with an **empty callback log**; else the validated prefault passed
-    through `f₁ … fₙ` once each in order; else the nonoptional error, nothing called; else nil passed
-    through the wrappers (Optional/Nilable/type admits nil); else a type error, nothing called. -/
+/-- **C03 under wrappers — every chain.** For every history of the eight modifiers (any length, any
+    order) and **every** chain of `Transform(fᵢ)` / `Pipe(Tᵢ)` wrappers a nil input yields: the default
+    value, no Transform callback called (pipe targets receive the default); else the validated prefault
+    passed through every wrapper once each in order; else the nonoptional error, nothing called; else
+    nil passed through the wrappers (Optional/Nilable/type admits nil); else a type error, nothing
+    called. -/
 theorem c03_wrapped_partial (rule : RefineRule) (admitsNil : Bool) (h : List Op) (ws : List W)
-    (hc : clean h = true) (hp : noPipe ws = true ∨ h.any isDefaultOp = false) :
+    (hc : clean h = true) :
     specNilW admitsNil h ws ((wrap (applyAll rule {} h) ws).parse admitsNil .nil) = true := by
   have hs := c03_history_partial rule admitsNil h hc
   have hd := hasDefault_applyAll rule h
@@ -371,7 +380,6 @@ theorem c03_wrapped_partial (rule : RefineRule) (admitsNil : Bool) (h : List Op)
   cases hany : h.any isDefaultOp with
   | true =>
     rw [hany] at hd
-    have hnp : noPipe ws = true := by rcases hp with hp | hp; exact hp; rw [hany] at hp; cases hp
     rw [c03_wrapped_default admitsNil i ws hd]
     -- with a default set and no overwrite attached the base outcome is the default
     have hout : ∃ k, nilOutcome admitsNil i = .dflt k := by
@@ -384,7 +392,7 @@ theorem c03_wrapped_partial (rule : RefineRule) (admitsNil : Bool) (h : List Op)
         · exact ⟨true, by simp⟩
       · exact ⟨false, by simp⟩
     obtain ⟨k, hk⟩ := hout
-    simp only [baseNil, hk, specWrapped, pipeCalls_noPipe _ ws 1 hnp]
+    simp only [baseNil, hk, specWrapped, pipeCalls_eq_spec]
   | false =>
     rw [hany] at hd
     rw [c03_wrapped_plain admitsNil .nil i ws (by simp [hd])]
@@ -403,12 +411,11 @@ theorem c03_wrapped_partial (rule : RefineRule) (admitsNil : Bool) (h : List Op)
     | dflt k => exact absurd ho (hnd k)
     | _ => simp [specWrapped, extend]
 
-/-- `String().Default("dflt").Pipe(T).Parse(nil)`: `ZodPipe.Parse` has no default short-circuit, the
-    pipe target is run on the default value (and a `.Transform(f)` attached after the pipe then skips
-    `f` but not `T`). -/
-theorem c03_witness_default_piped : ¬ c03_wrapped_full .ptrTy false := by
+/-- The wrapped full statement inherits the bare schema's deviation (an overwrite makes the default
+    go through the checks), here under two chained transforms. -/
+theorem c03_wrapped_witness_default_checked : ¬ c03_wrapped_full .ptrTy false := by
   intro hfull
-  have := hfull [.dflt true] [.pipe]
+  have := hfull [.overwrite, .dflt false] [.tf, .tf]
   revert this; decide
 
 /-- **A non-nil input is not affected by the modifiers, under every wrapper chain**: result and
